@@ -374,7 +374,179 @@ Record tx_case := {
   tc_hash_same : bool         (* Hash() unchanged when every witness is replaced *)
 }.
 
+(* ------------------------------------------------------------------ call histories *)
+(* Every function of the property that hands out a byte slice, a string or a structure holding
+   slices, as one call.  The functions are pure: a call's result is computed from its own
+   arguments alone.  [Hf] stands for double SHA-256 (Transaction.Hash / WitnessHash). *)
+Inductive part := PVersion | PInputs | POutputs | PLocktime.
+Inductive call :=
+| KSerialize (f : format) (t : tx)          (* Transaction.Serialize *)
+| KPart (p : part) (t : tx)                 (* SerializeVersion / Inputs / Outputs / Locktime *)
+| KTxHash (f : format) (t : tx)             (* Hash (Standard) / WitnessHash (Witness) *)
+| KDeserialize (raw : list N)               (* Transaction.Deserialize *)
+| KToVarLen (s : list N)                    (* Script.ToVarLenData *)
+| KFromVarLen (raw : list N)                (* NewScriptFromVarLenData *)
+| KWriteCompact (v : N)                     (* writeCompactSizeUint *)
+| KHdrSerialize (h : header)                (* BlockHeader.Serialize *)
+| KHdrDeserialize (raw : list N)            (* BlockHeader.Deserialize *)
+| KHashHex (h : list N) (o : byte_order)    (* Hash.Hex *)
+| KNewHash (b : list N) (o : byte_order)    (* NewHash *)
+| KNewHashStr (s : list N) (o : byte_order) (* NewHashFromString, the string as character codes *).
+Inductive hres := VBytes (b : list N) | VTx (t : tx) | VHdr (h : header) | VErr | VPanic.
+
+Definition of_opt (o : option (list N)) (none : hres) : hres :=
+  match o with Some b => VBytes b | None => none end.
+Definition call_result (Hf : list N -> list N) (c : call) : hres :=
+  match c with
+  | KSerialize f t => VBytes (serialize f t)
+  | KPart PVersion t => VBytes (ser_version t)
+  | KPart PLocktime t => VBytes (ser_locktime t)
+  | KPart PInputs t => of_opt (serialize_inputs t) VPanic
+  | KPart POutputs t => of_opt (serialize_outputs t) VPanic
+  | KTxHash f t => VBytes (Hf (serialize f t))
+  | KDeserialize raw => match deserialize raw with Some t => VTx t | None => VErr end
+  | KToVarLen s => VBytes (script_to_var_len s)
+  | KFromVarLen raw => of_opt (script_from_var_len raw) VErr
+  | KWriteCompact v => VBytes (write_compact_size_uint v)
+  | KHdrSerialize h => VBytes (header_serialize h)
+  | KHdrDeserialize raw => VHdr (header_deserialize raw)
+  | KHashHex h o => VBytes (hash_hex h o)
+  | KNewHash b o => of_opt (new_hash b o) VErr
+  | KNewHashStr s o => of_opt (new_hash_from_string s o) VErr
+  end.
+
+(* A history runs against the store of the results handed out so far (what the callers still
+   hold): each call adds its result, computed from its own arguments, at the end of the store
+   and touches nothing that is already there.  Proofs: [history_is_map]. *)
+Definition step (Hf : list N -> list N) (store : list hres) (c : call) : list hres :=
+  store ++ [call_result Hf c].
+Definition run_history_from (Hf : list N -> list N) (store : list hres) (cs : list call) : list hres :=
+  fold_left (step Hf) cs store.
+Definition run_history (Hf : list N -> list N) (cs : list call) : list hres := run_history_from Hf [] cs.
+
+(* the same in the compact case notation *)
+Inductive hcall :=
+| HSerialize (f : format) (t : ctx)
+| HPart (p : part) (t : ctx)
+| HTxHash (f : format) (t : ctx)
+| HDeserialize (raw : list chunk)
+| HToVarLen (s : list chunk)
+| HFromVarLen (raw : list chunk)
+| HWriteCompact (v : N)
+| HHdrSerialize (h : chdr)
+| HHdrDeserialize (raw : list chunk)
+| HHashHex (h : list chunk) (o : byte_order)
+| HNewHash (b : list chunk) (o : byte_order)
+| HNewHashStr (s : list chunk) (o : byte_order).
+Definition x_call (c : hcall) : call :=
+  match c with
+  | HSerialize f t => KSerialize f (x_tx t)
+  | HPart p t => KPart p (x_tx t)
+  | HTxHash f t => KTxHash f (x_tx t)
+  | HDeserialize raw => KDeserialize (expand raw)
+  | HToVarLen s => KToVarLen (expand s)
+  | HFromVarLen raw => KFromVarLen (expand raw)
+  | HWriteCompact v => KWriteCompact v
+  | HHdrSerialize h => KHdrSerialize (x_hdr h)
+  | HHdrDeserialize raw => KHdrDeserialize (expand raw)
+  | HHashHex h o => KHashHex (expand h) o
+  | HNewHash b o => KNewHash (expand b) o
+  | HNewHashStr s o => KNewHashStr (expand s) o
+  end.
+Inductive ores := OBytes (b : list chunk) | OTx (t : ctx) | OHdr (h : chdr) | OErr | OPanicked.
+Definition x_ores (o : ores) : hres :=
+  match o with
+  | OBytes b => VBytes (expand b) | OTx t => VTx (x_tx t) | OHdr h => VHdr (x_hdr h)
+  | OErr => VErr | OPanicked => VPanic
+  end.
+Definition hres_eqb (a b : hres) : bool :=
+  match a, b with
+  | VBytes x, VBytes y => list_eqb x y
+  | VTx x, VTx y => tx_eqb x y
+  | VHdr x, VHdr y => header_eqb x y
+  | VErr, VErr => true
+  | VPanic, VPanic => true
+  | _, _ => false
+  end.
+
+(* One entry of an observed history: the call with its arguments as they were when the call
+   was made; the result read immediately after the call (a deep copy); the SAME result object
+   read again after all later calls of the history, a forced garbage collection and a burst of
+   further calls, the caller having overwritten the argument slices in between; whether the
+   call left its arguments as they were. *)
+Record hentry := { he_call : hcall; he_now : ores; he_late : ores; he_input_kept : bool }.
+
+(* double SHA-256 as a finite table (preimage, digest) computed by the driver with Go's
+   crypto/sha256; anything else hashes to [] *)
+Fixpoint sha_lookup (tbl : list (list N * list N)) (pre : list N) : list N :=
+  match tbl with
+  | [] => []
+  | (p, d) :: t => if list_eqb p pre then d else sha_lookup t pre
+  end.
+Definition sha_of (tbl : list (list chunk * list chunk)) : list N -> list N :=
+  sha_lookup (map (fun pd => (expand (fst pd), expand (snd pd))) tbl).
+
+Definition opt_is (o : option (list N)) (b : list N) : bool :=
+  match o with Some x => list_eqb x b | None => false end.
+(* the round trip, taken on the value the caller holds at the END of the history, with the
+   model's decoders (inside the guards of the round-trip theorems; true where the property
+   claims nothing) *)
+Definition late_roundtrip (e : hentry) : bool :=
+  match he_call e, he_late e with
+  | HSerialize f c, OBytes b =>
+      let t := x_tx c in
+      if negb (tx_wf t) || is_nil (tx_ins t) then true else
+      match deserialize (expand b) with
+      | Some t' => tx_eqb t' (match f with Witness => t | Standard => strip_witness t end)
+      | None => false
+      end
+  | HToVarLen s, OBytes v =>
+      if negb (bytes_ok (expand s) && (len (expand s) <? 2 ^ 63)) then true
+      else opt_is (script_from_var_len (expand v)) (expand s)
+  | HWriteCompact v, OBytes w =>
+      if two64 <=? v then true else
+      match cs_decode (expand w) with ROk v' [] => v' =? v | _ => false end
+  | HHdrSerialize hc, OBytes b =>
+      if negb (header_wf (x_hdr hc)) then true else header_eqb (header_deserialize (expand b)) (x_hdr hc)
+  | HHashHex h o, OBytes s =>
+      if negb ((length (expand h) =? 32)%nat && bytes_ok (expand h)) then true
+      else opt_is (new_hash_from_string (expand s) o) (expand h)
+  | _, _ => true
+  end.
+(* Hash / WitnessHash: the value held at the end is the digest of the serialisation of the
+   transaction as it was when the call was made (not of what the object held before or after) *)
+Definition hash_is_digest (Hf : list N -> list N) (e : hentry) : bool :=
+  match he_call e, he_late e with
+  | HTxHash f c, OBytes b => list_eqb (expand b) (Hf (serialize f (x_tx c)))
+  | HTxHash _ _, _ => false
+  | _, _ => true
+  end.
+Definition hentry_ok (Hf : list N -> list N) (e : hentry) : bool :=
+  hres_eqb (x_ores (he_late e)) (x_ores (he_now e)) && he_input_kept e && late_roundtrip e
+  && hash_is_digest Hf e.
+Definition hspec_ok (Hf : list N -> list N) (h : list hentry) : bool := forallb (hentry_ok Hf) h.
+Definition hentry_agree (Hf : list N -> list N) (e : hentry) : bool :=
+  let r := call_result Hf (x_call (he_call e)) in
+  hres_eqb (x_ores (he_now e)) r && hres_eqb (x_ores (he_late e)) r.
+Definition hagree_with (Hf : list N -> list N) (h : list hentry) : bool := forallb (hentry_agree Hf) h.
+
+Definition ctx_bytes_ok (c : ctx) : bool :=
+  let t := x_tx c in
+  forallb (fun ti => bytes_ok (ti_hash ti) && bytes_ok (ti_script ti)
+                     && forallb bytes_ok (ti_witness ti)) (tx_ins t)
+  && forallb (fun o => bytes_ok (to_script o)) (tx_outs t).
+Definition hcall_wf (c : hcall) : bool :=
+  match c with
+  | HSerialize _ t | HPart _ t | HTxHash _ t => ctx_bytes_ok t
+  | HDeserialize b | HToVarLen b | HFromVarLen b | HHdrDeserialize b
+  | HHashHex b _ | HNewHash b _ | HNewHashStr b _ => bytes_ok (expand b)
+  | HWriteCompact v => v <? two64
+  | HHdrSerialize h => bytes_ok (expand (hc_prev h)) && bytes_ok (expand (hc_merkle h))
+  end.
+
 Inductive case :=
+(* a history of calls on the long-lived objects of one caller: [sha] = the double SHA-256 table *)
+| CHist (sha : list (list chunk * list chunk)) (h : list hentry)
 | CTx (c : tx_case)
 (* arbitrary bytes: Deserialize *)
 | CRaw (raw : list chunk) (d : otx)
@@ -424,6 +596,7 @@ Definition spec_tx (c : tx_case) : bool :=
 
 Definition spec_ok (c : case) : bool :=
   match c with
+  | CHist sha h => hspec_ok (sha_of sha) h
   | CTx c => spec_tx c
   | CRaw _ d => true        (* the property is silent about arbitrary bytes *)
   | CCompactW v tail w r =>
@@ -473,6 +646,7 @@ Definition agree_tx (c : tx_case) : bool :=
 
 Definition agree (c : case) : bool :=
   match c with
+  | CHist sha h => hagree_with (sha_of sha) h
   | CTx c => agree_tx c
   | CRaw raw d => otx_is d (deserialize (expand raw))
   | CCompactW v tail w r =>
@@ -516,10 +690,10 @@ Definition agree (c : case) : bool :=
 
 Definition well_formed (c : case) : bool :=
   match c with
-  | CTx c => let t := x_tx (tc_tx c) in
-             forallb (fun ti => bytes_ok (ti_hash ti) && bytes_ok (ti_script ti)
-                                && forallb bytes_ok (ti_witness ti)) (tx_ins t)
-             && forallb (fun o => bytes_ok (to_script o)) (tx_outs t)
+  | CHist sha h =>
+      forallb (fun pd => bytes_ok (expand (fst pd)) && bytes_ok (expand (snd pd))) sha
+      && forallb (fun e => hcall_wf (he_call e)) h
+  | CTx c => ctx_bytes_ok (tc_tx c)
   | CRaw raw _ => bytes_ok (expand raw)
   | CCompactW _ tail _ _ => bytes_ok (expand tail)
   | CCompactR raw _ _ => bytes_ok (expand raw)
@@ -540,9 +714,11 @@ Inductive explained :=
 | XCompact (w : list N) (r : option (N * N))
 | XHash (h : option (list N)) (hex_same hex_other : option (list N))
 | XHeader (ser : list N) (h : header)
-| XScript (v : list N) (s : option (list N)).
+| XScript (v : list N) (s : option (list N))
+| XHist (results : list hres).
 Definition explain (c : case) : explained :=
   match c with
+  | CHist sha h => XHist (run_history (sha_of sha) (map (fun e => x_call (he_call e)) h))
   | CTx c => let t := x_tx (tc_tx c) in
              XTx (serialize Standard t) (serialize Witness t) (serialize_inputs t) (serialize_outputs t)
                  (deserialize (serialize Standard t)) (deserialize (serialize Witness t))
